@@ -30,4 +30,10 @@ def run(tier, replay=None):
                           "(values built at random clocks in foreign locations); date-time vs instant: 3000 / 60000 pairs straddling second boundaries. SetTimeProfile accept/reject for all ordered HH:mm pairs of a boundary set. distinct = rows / pairs")
     v.coverage["exhaustive"] = tier == "thorough"
     v.coverage["checker_cmd"] = "tlc MC_Order (laws on a bounded grid); tlc Trace_Pure"
+    if replay is None:
+        # optional strengthening (never a verdict about the code): TLAPS proofs of the specification-level laws
+        pr = vflib.tlaps("OrderProofs")
+        v.coverage["tlaps"] = {"module": "spec/proofs/OrderProofs.tla", "what": "strict total order of the lexicographic date / HH:mm operators and the segment rule over unbounded integers",
+                               "obligations": pr[0] if pr else None, "proved": pr[1] if pr else None, "wall_s": pr[2] if pr else None,
+                               "status": "all proved" if pr and pr[0] == pr[1] else "not discharged in this run (the claim then rests on the TLC bound)"}
     return v.finish(write_evidence=replay is None)
